@@ -4,7 +4,9 @@ import (
 	"bytes"
 	"context"
 	"fmt"
+	"time"
 
+	cmted "github.com/cometbft/cometbft/crypto/ed25519"
 	cmttypes "github.com/cometbft/cometbft/types"
 
 	"github.com/oasisprotocol/oasis-core/go/common/cbor"
@@ -12,7 +14,6 @@ import (
 	consensus "github.com/oasisprotocol/oasis-core/go/consensus/api"
 	cmtapi "github.com/oasisprotocol/oasis-core/go/consensus/cometbft/api"
 	"github.com/oasisprotocol/oasis-core/go/consensus/cometbft/full"
-	"github.com/oasisprotocol/oasis-core/go/consensus/cometbft/light"
 	"github.com/oasisprotocol/oasis-core/go/consensus/cometbft/stateless"
 
 	"verifharness/internal/prng"
@@ -45,17 +46,14 @@ func (p *stubProvider) GetTransactions(context.Context, int64) ([][]byte, error)
 }
 
 func runCore(res *bresult, c BCase, lb *cmttypes.LightBlock, t *tb, r *rec) (q, out string, accept bool) {
-	var lbs []*cmttypes.LightBlock
+	lc, lbs, _ := caseLightClient(c)
 	var next *cmttypes.LightBlock
-	for _, h := range c.Chain {
-		x := lightBlockOf(h)
-		lbs = append(lbs, x)
+	for _, x := range lbs {
 		if x.Height == c.Height+1 {
 			next = x
 		}
 	}
 	last := lbs[len(lbs)-1].Height
-	lc := must(light.VerifNewClientWithTrustedLightBlocks(lbs))
 	core := stateless.NewCore(&stubProvider{results: c.Results, txs: c.Txs}, lc, stateless.Config{})
 	ctx := context.Background()
 	bad := func(what string) {
@@ -149,13 +147,40 @@ func genCoreCases(r *prng.R, idx int) []BCase {
 	n := 3 + idx%2
 	var tps []*tuple
 	appHash, lrh := r.Bytes(32), r.Bytes(32)
+	// a signed chain: five validator keys, the set alternates between {0,1,2,3} and {0,1,2,4}
+	var privs []cmted.PrivKey
+	keys := map[string]cmted.PrivKey{}
+	for k := 0; k < 5; k++ {
+		p := cmted.GenPrivKeyFromSecret(r.Bytes(16))
+		privs = append(privs, p)
+		keys[string(p.PubKey().Address())] = p
+	}
+	setAt := func(i int) *cmttypes.ValidatorSet {
+		ix := []int{0, 1, 2, 3}
+		if i%2 == 1 {
+			ix = []int{0, 1, 2, 4}
+		}
+		var vs []*cmttypes.Validator
+		for _, k := range ix {
+			vs = append(vs, cmttypes.NewValidator(privs[k].PubKey(), int64(10+k)))
+		}
+		return cmttypes.NewValidatorSet(vs)
+	}
+	link := &chainLink{ts: time.Unix(1_700_000_000+int64(r.Intn(1000000)), 0).UTC()}
+	if base > 1 {
+		link.lastBlockID = cmttypes.BlockID{Hash: r.Bytes(32), PartSetHeader: cmttypes.PartSetHeader{Total: 1, Hash: r.Bytes(32)}}
+	}
 	for i := 0; i < n; i++ {
 		if i == n-1 && idx%3 == 2 {
 			appHash = appHash[:31] // malformed app hash in the latest header: height latest-1 falls back to the metadata transaction
 		}
-		tp := mkTupleAt(r.Fork(), fmt.Sprintf("chain-%d-%d", idx, i), base+int64(i), appHash, lrh)
+		link.vals, link.nextVals = setAt(i), setAt(i+1)
+		tp := mkTupleAt(r.Fork(), fmt.Sprintf("chain-%d-%d", idx, i), base+int64(i), appHash, lrh, link)
+		cm := signCommit(&tp.hdr, link.vals, keys)
+		tp.commit = must(cm.ToProto().Marshal())
 		tps = append(tps, tp)
 		appHash, lrh = tp.root, tp.resultsHash
+		link = &chainLink{lastBlockID: cm.BlockID, lastCommit: cm, ts: link.ts.Add(6 * time.Second)}
 	}
 	return chainCases(r, tps)
 }
@@ -169,9 +194,15 @@ func chainCases(r *prng.R, tps []*tuple) []BCase {
 	for _, tp := range tps {
 		chain = append(chain, tp.header)
 	}
-	var vals [][]byte
+	var vals, commits [][]byte
 	for _, tp := range tps {
 		vals = append(vals, tp.valsProto)
+		if tp.commit != nil {
+			commits = append(commits, tp.commit)
+		}
+	}
+	if len(commits) != len(tps) {
+		commits = nil
 	}
 	cs := apiTwins(r.Fork(), tps, chain, vals)
 	for i := 0; i < n; i++ {
@@ -241,6 +272,22 @@ func chainCases(r *prng.R, tps []*tuple) []BCase {
 		forged := append(append([][]byte{}, tp.txs...), cborMetaTx(r, r.Bytes(32)))
 		mk("core-stateroot", "forged-meta-tx-appended", nil, forged, hon)
 		mk("core-stateroot", "only-forged-meta-tx", nil, forged[len(forged)-1:], hon)
+	}
+	// signed chains: the light client runs over in-memory providers
+	for k := range cs {
+		cs[k].ChainVals, cs[k].ChainCommits = vals, commits
+	}
+	if commits != nil {
+		// a forged light block (corrupted commit signatures) at the requested height
+		tp := tps[n-1]
+		if tp.block != nil {
+			hb := &BCase{Block: tp.block, Txs: tp.txs}
+			for _, f := range []string{"primary", "all"} {
+				cs = append(cs,
+					BCase{Kind: "api-block", Alter: "light-block-forged-at-" + f, Forge: f, Header: tp.header, Chain: chain, ChainVals: vals, ChainCommits: commits, Height: tp.height, Block: tp.block, Honest: hb},
+					BCase{Kind: "api-txs", Alter: "light-block-forged-at-" + f, Forge: f, Header: tp.header, Chain: chain, ChainVals: vals, ChainCommits: commits, Height: tp.height, Txs: tp.txs, Honest: hb})
+			}
+		}
 	}
 	return cs
 }
